@@ -8,7 +8,7 @@ from concurrent.futures import ThreadPoolExecutor
 
 
 def run(run, binary, drv):
-    n_prog, per = (8, 250) if run.tier == "quick" else (96, 250)
+    n_prog, per = (64, 250) if run.tier == "quick" else (768, 250)
     out = os.path.join(drv.HARNESS, "target-macro", "prog")
     if os.path.isdir(os.path.join(out, "src")):
         shutil.rmtree(os.path.join(out, "src"))
